@@ -14,9 +14,10 @@
  *             one instance; the second exchange must equal the exchange on a
  *             fresh instance (memory accesses and reply octets).
  *   family E: reads from just above what fits behind the request's header up to
- *             sizes whose octet count wraps in 32 bits: beyond what the block
- *             holds behind its descriptor a transmit-overflow response and no
- *             memory access.
+ *             sizes whose octet count wraps in 32 bits: served with the full
+ *             oracle (the backend fills the whole announced block; ASan sees a
+ *             buffer that is too small), or not executed and answered with a
+ *             transmit-overflow response.
  *   family O: option bits -- every combination of the header-checksum and
  *             payload-checksum bits on either transport (the parser goes by
  *             the bits, not by the transport): a receiver may refuse the
@@ -35,35 +36,39 @@
  *             non-requests, corrupted frames and channel-level failures on one
  *             instance, with the caller's RPMaybeFrame cleared per round /
  *             reused / reused with indeterminate first contents, on a heap and
- *             on a pool allocator.  After a channel failure that regp_recv
- *             reported (negative return) an instance may refuse reception
- *             (regp_recv < 0 without taking an octet from the source) until a
- *             channel is installed again, as in family G: then no access and no
- *             acknowledgement, and the frame is offered once more after
- *             regp_use_channel.
+ *             on a pool allocator.  Whether reception failed is what the library
+ *             reports in that round (negative return, error.id, no frame), also
+ *             for the two valid requests that a receiver taking a frame into one
+ *             allocator block cannot receive (no block / larger than the block):
+ *             reported as received they are requests.  After a channel failure
+ *             that regp_recv reported (negative return) an instance may refuse
+ *             or lose the next frame (latched failure, framing layer that
+ *             resynchronises at the next frame boundary): a round whose
+ *             reception the library reports as failed is then judged no access /
+ *             no acknowledgement, and the frame is offered once more after
+ *             regp_use_channel, judged like any round.
  *   family G: the reply cannot be sent (sink failure at every octet offset of
  *             every reply kind): still exactly one access; the next request,
  *             if the instance still receives it, is served as on a fresh
  *             instance (the statement says nothing about sink failures: an
- *             instance that latches the failure and refuses reception until a
- *             channel is installed again is admitted -- then no access and no
+ *             instance that latches the failure and refuses reception --
+ *             negative return, or error.id without a frame -- until a channel is
+ *             installed again is admitted: then no access and no
  *             acknowledgement; the request after regp_use_channel is judged
  *             the same way).
  * The capacity of the 160-octet block (how much of it the receiver keeps for
  * itself is the library's business) is learned from the library's own answers
  * (regp_ref.h: drv_learn_capacity): the length of the longest well-formed
  * request it receives into such a block.  160 - sizeof(RPFrame) places the
- * enumerated windows and is the physical bound: a read of more octets than the
- * block has behind the frame descriptor has no placement under any reading:
- * transmit-overflow response, no access.  What the receiver takes into a block
- * at reception may be less than what a read can place there (room kept free at
- * reception, write payloads capped), so from "data + a full 16-octet response
- * header exceed the learned capacity" up to that bound ("the band") a read may
- * be served -- then with the full oracle; the exact-size blocks under ASan see
- * a placement that leaves the block -- or answered with a transmit-overflow
+ * enumerated windows.  From "data + a full 16-octet response header exceed the
+ * learned capacity" upwards a read may be served -- then with the full oracle;
+ * the backend fills the whole announced block, so the exact-size blocks under
+ * ASan see a buffer that is too small -- or answered with a transmit-overflow
  * response without access (statement C09 prescribes the latter for "a read
- * whose answer cannot fit"; whether the data goes behind the request's header,
- * over it, or behind a response header is the library's business).  A write
+ * whose answer cannot fit"; C06 says nothing about reads above the capacity,
+ * and whether the data goes behind the request's header, over it, behind a
+ * response header or into a transmit block of its own is the library's
+ * business).  A write
  * request whose frame reaches into the top 16 octets of the capacity may
  * likewise be received and executed, or refused by reception (then: no access;
  * its reply is C07's/C09's subject).
@@ -368,19 +373,20 @@ check_request(const struct req *q)
     }
     if (!q->write) {
         const uint64_t octets = (uint64_t)q->bsize * (q->mem16 ? 2u : 1u);
-        /* no placement exists: more octets than the block has behind its descriptor
-         * (what the receiver takes into a block at reception -- rawcap -- may be less
-         * than what a read can place there: room kept free, write payloads capped) */
+        /* From "data + a full response header exceed the learned receive capacity"
+         * upwards the statement does not say that the read has to be served (what
+         * happens to a read whose answer cannot fit is statement C09's sentence, and
+         * where an implementation prepares its answers -- in the request's block or
+         * in a transmit block of its own -- is its business).  A read that is served
+         * is judged with the full oracle below (the backend fills the whole announced
+         * block: ASan's exact-size blocks see a buffer that is too small); a read that
+         * is not executed must be answered with a transmit-overflow response. */
         const size_t physical = physical_room();
-        const bool cannot_fit = octets > physical;
-        const bool band = !cannot_fit && octets + 16 > rawcap;      /* not surely together with a full response header */
-        if (cannot_fit || (band && D.ncalls == 0)) {
-            outcome = cannot_fit ? "read-too-large-refused" : "read-band-refused";
+        const bool above = octets + 16 > rawcap;
+        if (above && D.ncalls == 0) {
+            outcome = octets > physical ? "read-too-large-refused" : "read-band-refused";
             const uint32_t val = r.plen == 4 ? ((uint32_t)r.payload[0] << 24 | (uint32_t)r.payload[1] << 16 | (uint32_t)r.payload[2] << 8 | r.payload[3]) : 0;
-            if (D.ncalls != 0)
-                mc_fail("C06/too-large-read-no-access", "a read of %llu octets cannot fit a %d-octet block that holds its %zu-octet descriptor (room %zu; learned receive capacity %zu) but caused %d memory accesses",
-                        (unsigned long long)octets, BLOCKSIZE, sizeof(RPFrame), physical, rawcap, D.ncalls);
-            else if (r.meta != 5)
+            if (r.meta != 5)
                 mc_fail("C06/too-large-read-response", "a read of %llu octets that was not executed was answered with code %u (expected transmit overflow)",
                         (unsigned long long)octets, r.meta);
             else if (r.plen != 4 || r.bsize != 4 || (r.options & RO_W16) || !bufsize_ok(q, val))
@@ -485,8 +491,8 @@ family_options(bool th)
                     const size_t hdr = 12 + (((om - 1) & 1) ? 2 : 0) + (((om - 1) & 2) ? 2 : 0);
                     const uint32_t cap = (uint32_t)((rawcap - hdr) / (sem16 ? 2 : 1));
                     /* writes up to what fits the block with this header; reads from what fits
-                     * behind it up to three words beyond the block's capacity (the latter must be
-                     * refused, the ones in between may be) */
+                     * behind it up to three words beyond the block's capacity (served with the
+                     * full oracle, or refused with a transmit-overflow response) */
                     const uint32_t top = write ? cap : (uint32_t)(rawcap / (sem16 ? 2 : 1)) + 3;
                     for (uint32_t bs = 0; bs <= top; ++bs) {
                         if (!th && bs > 2 && bs + 3 < cap)
@@ -607,6 +613,8 @@ struct item {
     bool alloc_fails; /* every allocation of the round is refused */
     RPResponse verdict;
     uint32_t vaddr;
+    bool isreq;       /* the wire octets are a request that is valid by the reference: q */
+    struct req q;
 };
 #define NITEMS 14
 
@@ -622,6 +630,8 @@ item_from_req(struct item *it, int kind, const char *name, const struct req *q)
     it->src_err_at = -1;
     it->verdict = q->verdict;
     it->vaddr = q->vaddr;
+    it->isreq = q->rawtype < 0;
+    it->q = *q;
 }
 
 static void
@@ -691,13 +701,17 @@ build_items(bool tcp, struct item *it)
     }
     item_from_req(&it[10], IK_CHAN, "source-has-nothing", &w16);
     it[10].n = 0;
+    it[8].isreq = it[9].isreq = it[10].isreq = false; /* the channel does not deliver the request */
     memset(&it[11], 0, sizeof it[11]);
     it[11].kind = IK_BAD;
     it[11].name = tcp ? "zero-length-frame" : "empty-frame";
     it[11].wire[0] = tcp ? 0x00 : 0xc0;
     it[11].n = 1;
     it[11].src_err_at = -1;
-    /* receptions that fail for want of memory: no block at all / a frame larger than the block */
+    /* receptions that fail for want of memory in a receiver that takes a frame into one allocator
+     * block: no block at all / a frame larger than the block.  Both are valid requests: whether
+     * reception failed is what the library reports in that round (a receiver with a reserve block,
+     * or one whose receive block grows, has received a request and owes the exchange) */
     item_from_req(&it[12], IK_BAD, "write16-while-allocation-fails", &w16);
     it[12].alloc_fails = true;
     const struct req big = { tcp, true, false, true, 0x90, 2 * BLOCKSIZE - 60, 0, 0x0909, RP_RESP_ACK, 0x90, -1, 0, 0 };
@@ -763,6 +777,13 @@ reinstall_channel(struct drv *d, bool tcp)
     regp_use_channel(&d->p, tcp ? RP_EP_TCP : RP_EP_SERIAL, src, snk);
 }
 
+/* "a frame that failed reception": what the library itself reports for the round */
+static bool
+lp_failed(const struct lp_result *r)
+{
+    return r->rrc < 0 || r->errid != 0 || !r->hadframe;
+}
+
 /* did the reply octets of the round hold an acknowledgement? */
 static bool
 round_acked(bool tcp, const struct drv *d)
@@ -801,45 +822,62 @@ run_session(bool tcp, const struct item *it, const int *seq, int len, int mfmode
         /* The statement is about requests that were received.  It says nothing about
          * what a channel failure that regp_recv reported (negative return: hard source
          * error, framing violation, ...) does to the instance: one that latches the
-         * failure and refuses reception -- regp_recv < 0 without taking a single octet
-         * from the source -- until a channel is installed again is admitted, as in
-         * family G.  Then: no access, no acknowledgement; the caller's error handling
-         * installs the channel again and the same frame is offered once more. */
-        if (chan_failed && x->n > 0 && r.rrc < 0 && D.inpos == 0) {
+         * failure, or whose framing layer resynchronises at the next frame boundary and
+         * so loses the frame that follows, is admitted.  After such a failure a round
+         * whose reception the library itself reports as failed (negative return,
+         * error.id, no frame) is judged: no access, no acknowledgement; then the
+         * caller's error handling installs the channel again and the same frame is
+         * offered once more, now judged like any round. */
+        bool failed = lp_failed(&r);
+        if (chan_failed && x->n > 0 && failed) {
             if (r.calls != 0)
-                mc_fail("C06/failed-reception-no-access", "round %d (%s): reception after a reported channel failure was refused (rc=%d, no source octet taken) but caused %d memory accesses", k,
-                        x->name, r.rrc, r.calls);
+                mc_fail("C06/failed-reception-no-access", "round %d (%s): reception after a reported channel failure failed (rc=%d error.id=%d frame=%d) but caused %d memory accesses", k,
+                        x->name, r.rrc, r.errid, r.hadframe, r.calls);
             else if (round_acked(tcp, &D))
-                mc_fail("C06/refused-not-acknowledged", "round %d (%s): reception after a reported channel failure was refused (rc=%d), nothing was executed, but an acknowledgement was sent", k,
-                        x->name, r.rrc);
+                mc_fail("C06/refused-not-acknowledged", "round %d (%s): reception after a reported channel failure failed (rc=%d error.id=%d frame=%d), nothing was executed, but an acknowledgement was sent", k,
+                        x->name, r.rrc, r.errid, r.hadframe);
             else {
                 reinstall_channel(&D, tcp);
+                chan_failed = false;
                 if (mfmode == 0)
                     memset(&mf, 0, sizeof mf);
                 feed_item(&D, x);
                 lp_round(&D, &mf, &r);
                 mc_trans(3);
+                failed = lp_failed(&r);
                 mc_log("round %d %s once more after regp_use_channel: recv rc=%d error.id=%d process rc=%d calls=%d reply=%zu octets, %zu of %zu source octets consumed", k, x->name,
                        r.rrc, r.errid, r.prc, r.calls, D.outlen, D.inpos, D.inlen);
             }
         }
         if (mc.cur_failed)
             break;
-        const bool refused = chan_failed && x->n > 0 && r.rrc < 0 && D.inpos == 0; /* still refused after the channel was installed again */
         if (r.rrc < 0)
             chan_failed = true;
-        if (refused) {
-            if (r.calls != 0)
-                mc_fail("C06/failed-reception-no-access", "round %d (%s): reception was refused (rc=%d, no source octet taken) but caused %d memory accesses", k, x->name, r.rrc, r.calls);
-            else if (round_acked(tcp, &D))
-                mc_fail("C06/refused-not-acknowledged", "round %d (%s): reception was refused (rc=%d), nothing was executed, but an acknowledgement was sent", k, x->name, r.rrc);
-        } else if (x->kind == IK_GOOD || x->kind == IK_NONREQ) {
+        if (x->kind == IK_GOOD || x->kind == IK_NONREQ) {
             if (!equals_fresh(tcp, x, &r))
                 mc_fail("C06/requests-independent", "round %d (%s): the exchange differs from the same exchange on a fresh instance (calls=%d, reply %zu octets)", k,
                         x->name, r.calls, D.outlen);
-        } else if (r.calls != 0) {
-            mc_fail("C06/failed-reception-no-access", "round %d (%s): reception failed (rc=%d error.id=%d) but the round caused %d memory accesses (%s addr=%08x size=%zu)",
-                    k, x->name, r.rrc, r.errid, r.calls, D.call[0].write ? "write" : "read", D.call[0].addr, D.call[0].bsize);
+        } else if (x->isreq && !failed) {
+            /* a valid request that the library reports as received (although a receiver
+             * that takes a frame into one allocator block could not have): a request */
+            const struct drv_call *c = &D.call[0];
+            const int want = x->q.sem16 == x->q.mem16; /* a word-size mismatch owes no access */
+            if (r.calls != want)
+                mc_fail(want ? "C06/exactly-one-access" : "C06/wordsize-no-access", "round %d (%s): the library reports the request as received (rc=%d error.id=0) and performed %d memory accesses (expected %d)", k, x->name, r.rrc,
+                        r.calls, want);
+            else if (want && (c->write != x->q.write || c->m16 != x->q.mem16 || c->addr != x->q.addr || c->bsize != x->q.bsize))
+                mc_fail("C06/access-matches-request", "round %d (%s): backend saw %s addr=%08x size=%zu for request %s addr=%08x size=%u", k, x->name, c->write ? "write" : "read",
+                        c->addr, c->bsize, x->q.write ? "write" : "read", x->q.addr, x->q.bsize);
+            else if (!equals_fresh(tcp, x, &r))
+                mc_fail("C06/requests-independent", "round %d (%s): the exchange differs from the same exchange on a fresh instance (calls=%d, reply %zu octets)", k,
+                        x->name, r.calls, D.outlen);
+        } else if (r.calls != 0 && (failed || x->kind == IK_CHAN)) {
+            /* a frame that failed reception -- by the library's own report, or because the
+             * channel never delivered a frame (source error, stream cut, nothing there; no
+             * reading of the octets holds a valid frame).  A corrupted frame that the library
+             * reports as received is statement C07's sentence, not this one's. */
+            mc_fail("C06/failed-reception-no-access", "round %d (%s): reception failed (rc=%d error.id=%d frame=%d) but the round caused %d memory accesses (%s addr=%08x size=%zu)",
+                    k, x->name, r.rrc, r.errid, r.hadframe, r.calls, D.call[0].write ? "write" : "read", D.call[0].addr, D.call[0].bsize);
         }
     }
     if (!mc.cur_failed && lp_bad_releases(&D))
@@ -914,7 +952,6 @@ family_sendfail(void)
                     item_from_req(&a, IK_GOOD, KN[kind], &Q[kind]);
                     item_from_req(&b, IK_GOOD, "write16-acked", &next);
                     a.alloc_fails = kind == 7;
-                    const int want = (kind == 4 || kind == 5 || kind >= 7) ? 0 : 1;
                     drv_init(&D, tcp, true, BLOCKSIZE, !tcp);
                     RPMaybeFrame mf;
                     memset(&mf, 0, sizeof mf);
@@ -928,9 +965,18 @@ family_sendfail(void)
                     mc_log("round 0: recv rc=%d error.id=%d process rc=%d calls=%d sent=%zu octets, sink failure %s", r.rrc, r.errid, r.prc, r.calls, D.outlen,
                            hit ? "hit" : "not reached");
                     const struct drv_call *c = &D.call[0];
+                    /* how many accesses the round owes: none for the word-size mismatch; none or one
+                     * for the read far above any block (whether such a read is served is not C06's
+                     * sentence; a served one is seen by ASan when the backend fills its buffer); for
+                     * the two requests that a receiver taking a frame into one allocator block cannot
+                     * receive (no block / larger than the block) what the library reports decides:
+                     * reception failed -> none, request received -> one (none if its word size does not
+                     * match the memory); one otherwise */
+                    const int want = kind == 4 ? 0 : kind == 5 ? (r.calls == 1) : kind >= 7 ? (!lp_failed(&r) && Q[kind].sem16 == Q[kind].mem16) : 1;
                     if (r.calls != want)
-                        mc_fail(want ? "C06/exactly-one-access" : kind == 4 ? "C06/wordsize-no-access" : kind == 5 ? "C06/too-large-read-no-access" : "C06/failed-reception-no-access",
-                                "%d memory accesses for one request whose reply %s (expected %d)", r.calls, hit ? "could not be sent" : "was sent", want);
+                        mc_fail(want ? "C06/exactly-one-access" : kind == 4 ? "C06/wordsize-no-access" : kind == 5 ? "C06/exactly-one-access" : lp_failed(&r) ? "C06/failed-reception-no-access" : "C06/wordsize-no-access",
+                                "%d memory accesses for one request whose reply %s (expected %d; recv rc=%d error.id=%d frame=%d)", r.calls, hit ? "could not be sent" : "was sent", want,
+                                r.rrc, r.errid, r.hadframe);
                     else if (want && (c->write != Q[kind].write || !c->m16 || c->addr != Q[kind].addr || c->bsize != Q[kind].bsize))
                         mc_fail("C06/access-matches-request", "backend saw %s addr=%08x size=%zu for request %s addr=%08x size=%u", c->write ? "write" : "read", c->addr,
                                 c->bsize, Q[kind].write ? "write" : "read", Q[kind].addr, Q[kind].bsize);
@@ -943,9 +989,10 @@ family_sendfail(void)
                          * executed, nothing acknowledged); one that receives the request owes the
                          * exchange of a fresh instance.  Round 2: the same after the caller has
                          * installed the channel again. */
+                        bool refused = false;
                         for (int round = 1; round <= 2 && !mc.cur_failed; ++round) {
                             if (round == 2) {
-                                if (r.rrc >= 0)
+                                if (!refused)
                                     break; /* served (and judged) already */
                                 Source src;
                                 Sink snk;
@@ -960,8 +1007,10 @@ family_sendfail(void)
                             feed_item(&D, &b);
                             lp_round(&D, &mf, &r);
                             mc_trans(3);
-                            mc_log("round %d: recv rc=%d error.id=%d process rc=%d calls=%d reply=%zu octets", round, r.rrc, r.errid, r.prc, r.calls, D.outlen);
-                            if (r.rrc < 0) {
+                            mc_log("round %d: recv rc=%d error.id=%d frame=%d process rc=%d calls=%d reply=%zu octets", round, r.rrc, r.errid, r.hadframe, r.prc, r.calls, D.outlen);
+                            /* refused: a negative return, or an error reported without handing a frame over */
+                            refused = r.rrc < 0 || (r.errid != 0 && !r.hadframe);
+                            if (refused) {
                                 unsigned char scratch[DRV_WIRE];
                                 struct rr_frames fr;
                                 struct rframe rp;
@@ -971,11 +1020,11 @@ family_sendfail(void)
                                     if ((rr_verdict(scratch + fr.off[i], fr.len[i], &rp) & RV_OK) && (rp.type == RT_READ_RESP || rp.type == RT_WRITE_RESP) && rp.meta == 0)
                                         acked = true;
                                 if (r.calls != 0)
-                                    mc_fail("C06/failed-reception-no-access", "reception after a failed transmission was refused (rc=%d) but caused %d memory accesses", r.rrc,
-                                            r.calls);
+                                    mc_fail("C06/failed-reception-no-access", "reception after a failed transmission was refused (rc=%d error.id=%d) but caused %d memory accesses", r.rrc,
+                                            r.errid, r.calls);
                                 else if (acked)
-                                    mc_fail("C06/refused-not-acknowledged", "reception after a failed transmission was refused (rc=%d), nothing was executed, but an acknowledgement was sent",
-                                            r.rrc);
+                                    mc_fail("C06/refused-not-acknowledged", "reception after a failed transmission was refused (rc=%d error.id=%d), nothing was executed, but an acknowledgement was sent",
+                                            r.rrc, r.errid);
                             } else if (!equals_fresh(tcp, &b, &r))
                                 mc_fail("C06/requests-independent", "the request %s is not served as on a fresh instance (calls=%d, reply %zu octets)",
                                         round == 1 ? "after a failed transmission" : "after a failed transmission and regp_use_channel", r.calls, D.outlen);
@@ -1141,7 +1190,7 @@ main(int argc, char **argv)
     family_invalid();
     family_sessions(th);
     family_sendfail();
-#define BOUND_REST "B: 12 verdicts x 3 reported addresses x kinds x sizes 0..3; C: every response code / meta code as input (document-conformant payloads); D: all ordered pairs of 19 frames per transport; E: reads of 24 sizes from just above what fits behind the request header (may be served up to 160 - sizeof(RPFrame) octets, must be refused beyond that) to 2^32-1 (straddling 2^15/2^16/2^31/2^32, incl. sizes whose octet count wraps in 16 or 32 bits) x transports x memory widths x every checksum-option combination; F: frames invalid by the document (no access whenever the library reports failed reception): read/write x 8/16 x transports x 5 option modes x 33 block sizes (0..4 and 2^k-1..2^k+3 for k=7,8,15,16,31, 2^32-3..2^32-1) x payload 0..8 octets x 6 variants; G: 9 reply kinds (incl. the busy and receive-overflow replies of reception) x sink failure at reply octet 0..23 x 3 error codes x transports, followed by a request on the healed channel (and, if reception is refused, once more after regp_use_channel); capacity = 160 - sizeof(RPFrame) places the windows and bounds what a read can place in a block, the band starts at the capacity learned from the library minus 16"
+#define BOUND_REST "B: 12 verdicts x 3 reported addresses x kinds x sizes 0..3; C: every response code / meta code as input (document-conformant payloads); D: all ordered pairs of 19 frames per transport; E: reads of 24 sizes from just above what fits behind the request header (served with the full oracle or refused with a transmit-overflow response) to 2^32-1 (straddling 2^15/2^16/2^31/2^32, incl. sizes whose octet count wraps in 16 or 32 bits) x transports x memory widths x every checksum-option combination; F: frames invalid by the document (no access whenever the library reports failed reception): read/write x 8/16 x transports x 5 option modes x 33 block sizes (0..4 and 2^k-1..2^k+3 for k=7,8,15,16,31, 2^32-3..2^32-1) x payload 0..8 octets x 6 variants; G: 9 reply kinds (incl. the busy and receive-overflow replies of reception) x sink failure at reply octet 0..23 x 3 error codes x transports, followed by a request on the healed channel (and, if reception is refused, once more after regp_use_channel); capacity = 160 - sizeof(RPFrame) places the windows, the band in which a read may be refused starts at the capacity learned from the library minus 16 and is open upwards; in S and G 'reception failed' is what the library reports in the round"
     mc_finish(true, th ? "A: 2 transports x read/write x 8/16-bit semantics x 8/16-bit memory x 6 addresses x every block size 0..capacity(160-octet block) x 4 contents x 4 sequence numbers; O: all 4 combinations of the checksum option bits x every block size 0..capacity (reads: up to block capacity + 3 words); S: every sequence of 2..4 receptions out of 14 (4 requests, 2 non-requests, 3 corrupted/empty frames, 3 channel failures, allocation failure, frame larger than the block) x 3 RPMaybeFrame disciplines x heap/pool allocator x transports, and every sequence of 2..3 with each of the other two source kinds (chunk, octet, chunk with getbuffer); " BOUND_REST
                        : "A: as thorough with the sequence number rotating with the address for blocks > 2; O: all 4 combinations of the checksum option bits x block sizes 0..2 and capacity-3..capacity (reads: up to block capacity + 3 words); S: every sequence of 2..3 receptions out of 14 (4 requests, 2 non-requests, 3 corrupted/empty frames, 3 channel failures, allocation failure, frame larger than the block) x 3 RPMaybeFrame disciplines x heap/pool allocator x transports; " BOUND_REST);
     return 0;
